@@ -299,6 +299,12 @@ def items(tier: str, seed: int) -> list[Any]:
                     for k, (depth, th, rs) in enumerate(itertools.product((1, 2, 3, 5), (False, True), (False, True))):
                         out.append((nodes, e, flavours[(gi + k) % 3], depth, skips[(gi // 3 + k) % 4], th, rs))
                 out.append((nodes, e, 0x12, 3, (), False, True, True))
+                if nodes == (1, 2, 3):
+                    # TesterPresent refused outside the default session + reply latency; a second scan into a used database
+                    out.append((nodes, e, flavours[gi % 3], 2, (), False, True, False, "tp"))
+                    out.append((nodes, e, flavours[gi % 3], 3, (), gi % 2 == 0, False, False, "tp"))
+                    out.append((nodes, e, 0x7E, 1, (), False, True, True, "db2"))
+                    out.append((nodes, e, 0x22, 2, (3,), False, True, True, "db2"))
                 for rr in ("rr1", "rr2", "rr12"):
                     for depth, th in ((2, False), (3, False), (3, True)):
                         out.append((nodes, e, flavours[gi % 3], depth, (), th, True, False, rr))
